@@ -7,6 +7,7 @@
      list     ( ... )                                                                         *)
 From Coq Require Import List ZArith NArith Ascii String Bool.
 From Coq Require Decimal DecimalZ.
+Export Coq.Strings.String.StringSyntax.
 Import ListNotations.
 Local Open Scope N_scope.
 
@@ -21,6 +22,9 @@ Fixpoint str_of_string (s : string) : str :=
   | EmptyString => []
   | String a r => N_of_ascii a :: str_of_string r
   end.
+
+(* STR "abc" : str, usable in files that import this one (any open scopes) *)
+Notation "'STR' x" := (str_of_string x%string) (at level 0, x at level 0).
 
 Fixpoint str_eqb (a b : str) : bool :=
   match a, b with
@@ -126,6 +130,9 @@ Fixpoint print_sexp (e : sexp) : str :=
       40 :: go l ++ [41]
   end.
 
+(* linear-time reverse (List.rev is quadratic) *)
+Definition frev {A} (l : list A) : list A := rev_append l [].
+
 (* ---- lexing ---- *)
 Inductive tok := TLp | TRp | TAtom (s : str) | TStr (s : str).
 
@@ -145,8 +152,8 @@ Inductive lmode := MNone | MAtom (acc : str) | MStr (acc : str) | MEsc (acc : st
 Fixpoint lex (m : lmode) (s : str) (out : list tok) : option (list tok) :=
   match s with
   | [] => match m with
-          | MNone => Some (rev out)
-          | MAtom a => Some (rev (TAtom (rev a) :: out))
+          | MNone => Some (frev out)
+          | MAtom a => Some (frev (TAtom (frev a) :: out))
           | _ => None
           end
   | c :: r =>
@@ -158,13 +165,13 @@ Fixpoint lex (m : lmode) (s : str) (out : list tok) : option (list tok) :=
           else if c =? 34 then lex (MStr []) r out
           else lex (MAtom [c]) r out
       | MAtom a =>
-          if is_blank c then lex MNone r (TAtom (rev a) :: out)
-          else if c =? 40 then lex MNone r (TLp :: TAtom (rev a) :: out)
-          else if c =? 41 then lex MNone r (TRp :: TAtom (rev a) :: out)
-          else if c =? 34 then lex (MStr []) r (TAtom (rev a) :: out)
+          if is_blank c then lex MNone r (TAtom (frev a) :: out)
+          else if c =? 40 then lex MNone r (TLp :: TAtom (frev a) :: out)
+          else if c =? 41 then lex MNone r (TRp :: TAtom (frev a) :: out)
+          else if c =? 34 then lex (MStr []) r (TAtom (frev a) :: out)
           else lex (MAtom (c :: a)) r out
       | MStr a =>
-          if c =? 34 then lex MNone r (TStr (rev a) :: out)
+          if c =? 34 then lex MNone r (TStr (frev a) :: out)
           else if c =? 92 then lex (MEsc a) r out
           else lex (MStr (c :: a)) r out
       | MEsc a =>
@@ -196,7 +203,7 @@ Fixpoint parse_toks (ts : list tok) (cur : list sexp) (stack : list (list sexp))
   | TLp :: r => parse_toks r [] (cur :: stack)
   | TRp :: r => match stack with
                 | [] => None
-                | up :: st => parse_toks r (SL (rev cur) :: up) st
+                | up :: st => parse_toks r (SL (frev cur) :: up) st
                 end
   | TAtom a :: r => parse_toks r (atom_sexp a :: cur) stack
   | TStr s :: r => parse_toks r (SS s :: cur) stack
